@@ -279,6 +279,46 @@ fn analysis_items() -> Vec<Item> {
         symbols.insert("m1".to_string(), format!("MODULE Linux x86_64 000 m1\nFILE 1 a.c\nINLINE_ORIGIN 0 inlined\nFUNC 100 100 0 outer\n{}100 40 11 1\n", inl));
         v.push(Item { name: format!("analysis-inline-undeclared-{}", k), cpu: "amd64".into(), dump: build(&spec), symbols, corrupted: false });
     }
+    // (1h) Linux dumps whose numeric OS version is 0.0.0, so that everything comes from the uname text: every number of tokens, runs of blanks
+    for (k, csd) in ["Linux", "Linux 5.4.0-42-generic", "Linux 3.10.0 Linux/GNU", "Linux 5.4.0-42-generic #46-Ubuntu SMP Fri Jul 10 00:24:02 UTC 2020 x86_64",
+                     "Linux 5.4.0 #1 SMP Sat Nov  7 10:00:00 UTC 2020 x86_64", " ", "Linux  ", "5.4.0", "Linux 5.4.0-42-generic x86_64"].into_iter().enumerate() {
+        let mut spec = DumpSpec { os: "linux".into(), cpu: "amd64".into(), ..DumpSpec::default() };
+        spec.threads.push(ThreadSpec { id: 1, ctx_ok: true, name: None, ip: 0x400150, sp: 0x10008, stack_base: 0x10000, stack: vec![0u8; 64] });
+        spec.modules = vec![ModuleSpec { base: 0x400000, size: 0x1000, name: "m1".into() }];
+        spec.csd = Some(csd.to_string());
+        spec.os_version = Some((0, 0, 0));
+        v.push(Item { name: format!("analysis-uname-{}", k), cpu: "amd64".into(), dump: build(&spec), symbols: HashMap::new(), corrupted: false });
+    }
+    // (1i) memory operands whose base sits at the middle of the address space, with a displacement across it
+    for (k, (op, val)) in [(&[0x48u8, 0x8b, 0x43, 0x10][..], 0x7fff_ffff_ffff_fff8u64), (&[0x48, 0x8b, 0x43, 0xf8][..], 0x8000_0000_0000_0000), (&[0x48, 0x8b, 0x43, 0x7f][..], 0x7fff_ffff_ffff_ffff),
+                           (&[0x48, 0x8b, 0x83, 0x00, 0x00, 0x00, 0x80][..], 0x8000_0000_0000_0010)].into_iter().enumerate() {
+        let mut spec = DumpSpec { os: "windows".into(), cpu: "amd64".into(), ..DumpSpec::default() };
+        spec.threads.push(ThreadSpec { id: 1, ctx_ok: true, name: None, ip: 0x400150, sp: 0x10008, stack_base: 0x10000, stack: vec![0u8; 64] });
+        spec.modules = vec![ModuleSpec { base: 0x400000, size: 0x1000, name: "m1".into() }];
+        spec.memory_info = vec![RegionSpec { base: 0x10000, size: 0x8000, protection: 4, state: 0x1000 }, RegionSpec { base: 0x400000, size: 0x1000, protection: 0x20, state: 0x1000 }];
+        let mut bytes = op.to_vec();
+        bytes.resize(16, 0x90);
+        spec.extra_memory.push((0x400150, bytes));
+        let mut info = [0u64; 15];
+        info[1] = val;
+        spec.exception = Some(ExcSpec { tid: 1, has_ctx: true, ctx_ok: true, ctx_ip: 0x400150, ctx_sp: 0x10008, code: 0xC000_0005, flags: 0, address: 0x400150, nparams: 2, info, ctx_patch: vec![(144usize, val)] });
+        v.push(Item { name: format!("analysis-operand-across-the-middle-{}", k), cpu: "amd64".into(), dump: build(&spec), symbols: HashMap::new(), corrupted: false });
+    }
+    // (1j) more frames than any report would want to show: an x86 frame-pointer chain of 1100 frames
+    {
+        let n = 1100usize;
+        let mut stack = vec![0u8; 8 * n + 16];
+        for i in 0..n {
+            let at = 8 * i;
+            let next = if i + 1 < n { 0x20000u32 + 8 * (i as u32 + 1) } else { 0 };
+            stack[at..at + 4].copy_from_slice(&next.to_le_bytes());
+            stack[at + 4..at + 8].copy_from_slice(&0x400120u32.to_le_bytes());
+        }
+        let mut spec = DumpSpec { os: "linux".into(), cpu: "x86".into(), ..DumpSpec::default() };
+        spec.threads.push(ThreadSpec { id: 1, ctx_ok: true, name: None, ip: 0x400150, sp: 0x20000, stack_base: 0x20000, stack });
+        spec.modules = vec![ModuleSpec { base: 0x400000, size: 0x1000, name: "m1".into() }];
+        v.push(Item { name: "analysis-long-frame-pointer-chain".into(), cpu: "x86".into(), dump: build(&spec), symbols: HashMap::new(), corrupted: false });
+    }
     // (1b) the dump header has no time stamp (zeroed here) but the process start time is known: anything
     //      derived from "the time of the crash" must come from the dump, not from the clock.  The name asks the determinism
     //      recorder to let a second pass before the last run.
